@@ -74,9 +74,13 @@ func genC20Stream(r *core.Rand, g *gen.StmtGen, long bool) c20Stream {
 	hz := map[string]bool{}
 	stmtsOnLine, maxOnLine := 0, 0
 	linesOfStmt, maxLinesOfStmt := 1, 1
+	var prevToks []string
 	for i := 0; i < ns; i++ {
 		var n *proto.NStmt
-		if r.Chance(1, 3) {
+		if prevToks != nil && r.Chance(1, 6) {
+			// the statement typed just before, typed once more
+			n = nil
+		} else if r.Chance(1, 3) {
 			// literal hazards on purpose
 			lits := []string{"a;b", ";", "x ; y", `say "hi"`, "it; is", "SELECT;", "two  spaces", ";;", "end;", "می\u200cخواهم;", "👨\u200d👩\u200d👧", "co\u00adoperate", "zero\u200bwidth", "\ufeffbom; x"}
 			n = &proto.NStmt{Kind: "insert", Name: "t", Rows: [][]proto.Val{{proto.Int(int64(i)), proto.Str(lits[r.Intn(len(lits))])}}}
@@ -94,7 +98,14 @@ func genC20Stream(r *core.Rand, g *gen.StmtGen, long bool) c20Stream {
 		} else {
 			n = g.Any()
 		}
-		toks := append(model.RenderNTokens(n), ";")
+		var toks []string
+		if n == nil {
+			toks = prevToks
+			hz["repeated_statement"] = true
+		} else {
+			toks = append(model.RenderNTokens(n), ";")
+		}
+		prevToks = toks
 		for _, h := range strings.Fields(hazardOf(toks)) {
 			hz[h] = true
 		}
@@ -167,7 +178,7 @@ func genC20Stream(r *core.Rand, g *gen.StmtGen, long bool) c20Stream {
 }
 
 func checkC20(c *core.Ctx) []core.Floor {
-	c.Rule = "lists of 1-8 statements (from the C10 grammar plus literals and quoted identifiers containing semicolons, the other quote kind, spaces, keywords, non-ASCII text incl. zero-width joiners / non-joiners, soft hyphens and a byte order mark), each terminated by a semicolon, entered with line breaks (Enter = CR, as in raw mode) at random token boundaries - never inside a literal - several statements per line or one statement over many lines; delivered byte by byte, in random small chunks that split UTF-8 sequences, or as full 256-byte reads (a paste is a fast byte stream: the console never enables bracketed paste). The real Terminal.ReadLine (driven in-package through a go test -overlay driver) is called until EOF; the submitted statements, tokenised with the real SQL tokenizer, must equal the typed statements one to one and in order. In addition 64 (quick) / 1600 (thorough) whole console sessions run end to end: the console's own runTerminal loop on a pseudo-terminal with a real engine.Session behind it, the keystrokes written to the pty master; the statements are INSERTs of (sequence number, literal) into one table, mixed with statements the engine rejects (unknown table, syntax error, type error) on the same and on other lines; afterwards the table must hold exactly the valid INSERTs' rows, once each and in order, literals intact. Distinct = keystroke stream + chunking; non-trivial = a literal contains a semicolon, or a line carries several statements, or a statement spans several lines."
+	c.Rule = "lists of 1-8 statements (from the C10 grammar plus literals and quoted identifiers containing semicolons, the other quote kind, spaces, keywords, non-ASCII text incl. zero-width joiners / non-joiners, soft hyphens and a byte order mark), each terminated by a semicolon, entered with line breaks (Enter = CR, as in raw mode) at random token boundaries - never inside a literal - several statements per line or one statement over many lines, now and then the same statement twice in a row; delivered byte by byte, in random small chunks that split UTF-8 sequences, or as full 256-byte reads (a paste is a fast byte stream: the console never enables bracketed paste). The real Terminal.ReadLine (driven in-package through a go test -overlay driver) is called until EOF; the submitted statements, tokenised with the real SQL tokenizer, must equal the typed statements one to one and in order. In addition 64 (quick) / 1600 (thorough) whole console sessions run end to end: the console's own runTerminal loop on a pseudo-terminal with a real engine.Session behind it, the keystrokes written to the pty master; the statements are INSERTs of (sequence number, literal) into one table, mixed with statements the engine rejects (unknown table, syntax error, type error) on the same and on other lines; afterwards the table must hold exactly the valid INSERTs' rows, once each and in order, literals intact. Distinct = keystroke stream + chunking; non-trivial = a literal contains a semicolon, or a line carries several statements, or a statement spans several lines."
 	c.Assume = []string{"what a line break inside a literal should become is not stated by the property: never generated", "one stream in fifty carries a statement of 4-40 KB"}
 	bin, err := buildOverlayTest(c, "cmd/console", "console_driver_test.go", "zz_verif_driver_test.go")
 	if err != nil {
@@ -311,6 +322,7 @@ type c20E2E struct {
 	want      [][2]string
 	stmts     []string
 	rejBefore bool
+	repeats   bool
 }
 
 type c20E2EOut struct {
@@ -325,15 +337,22 @@ func genC20E2E(r *core.Rand) c20E2E {
 	lits := []string{"a;b", ";", "x ; y", `say "hi"`, "it; is", "SELECT;", "two  spaces", ";;", "end;", "plain", "", "é;ü", "می\u200cخواهم;", "👨\u200d👩\u200d👧", "co\u00adoperate", "zero\u200bwidth"}
 	ns := r.Range(3, 14)
 	rejectedOnLine := false
+	var lastInsert []string // tokens of the valid INSERT typed last, while nothing else was typed since
 	sp := func() string { return "   "[:r.Range(1, 3)] }
 	for i := 0; i < ns; i++ {
 		var toks []string
 		valid := true
-		switch x := r.Intn(10); {
+		switch x := r.Intn(11); {
+		case x == 10 && lastInsert != nil:
+			// the INSERT typed just before, typed once more: a second, equal row
+			toks = lastInsert
+			st.want = append(st.want, st.want[len(st.want)-1])
+			st.repeats = true
 		case x < 6:
 			lit := lits[r.Intn(len(lits))]
 			toks = []string{"INSERT", "INTO", "log", "VALUES", "(", fmt.Sprint(i), ",", "'" + lit + "'", ")", ";"}
 			st.want = append(st.want, [2]string{fmt.Sprintf("i%d", i), "s" + hex.EncodeToString([]byte(lit))})
+			lastInsert = toks
 		case x == 6:
 			toks, valid = []string{"INSERT", "INTO", "nosuch", "VALUES", "(", fmt.Sprint(i), ",", "'gone; really'", ")", ";"}, false
 		case x == 7:
@@ -342,6 +361,9 @@ func genC20E2E(r *core.Rand) c20E2E {
 			toks, valid = []string{"INSERT", "INTO", "log", "VALUES", "(", "'wrong; type'", ",", fmt.Sprint(i), ")", ";"}, false
 		default:
 			toks = []string{"SELECT", "*", "FROM", "log", "WHERE", "s", "=", "'a;b'", ";"}
+		}
+		if !valid || toks[2] != "log" || toks[0] != "INSERT" {
+			lastInsert = nil
 		}
 		if !valid {
 			rejectedOnLine = true
@@ -468,6 +490,9 @@ func checkC20EndToEnd(c *core.Ctx, bin string) {
 			c.Count("e2e_sessions", 1)
 			if st.rejBefore {
 				c.Count("e2e_sessions_with_a_rejected_statement_before_a_valid_one_on_the_same_line", 1)
+			}
+			if st.repeats {
+				c.Count("e2e_sessions_with_a_statement_typed_twice_in_a_row", 1)
 			}
 			c.Eval("e2e/"+st.Hex+fmt.Sprint(st.Chunks), st.rejBefore)
 			replay := map[string]interface{}{"typed": st.typed, "statements": st.stmts, "chunks": st.Chunks, "table_log_expected": st.want, "table_log_found": o.Rows}
